@@ -702,9 +702,11 @@ async def fairness_cases(chk, rng, count):
     lines, impl, descs = [], [], []
     ks = [0, 1, BATCH - 1, BATCH, BATCH + 1, 2 * BATCH - 1, 2 * BATCH, 2 * BATCH + 1]
     for i in range(count):
-        proto = ["text", "binary", "fetch"][i % 3]
+        proto = ["text", "binary", "fetch", "text", "binary", "fetchpipe"][i % 6]
         caps = int(BASE) | (DEP if rng.random() < 0.5 else 0)
         n = rng.choice([2 * BATCH + 5000, 2 * BATCH + 1, 3 * BATCH, BATCH + 17, BATCH // 2])
+        if proto == "fetchpipe":
+            n = rng.choice([4 * BATCH, 3 * BATCH + 77])
         k = rng.choice(ks + [rng.randrange(0, n)]) % max(n, 1)
         off = 0
         app = App()
@@ -736,10 +738,16 @@ async def fairness_cases(chk, rng, count):
                 a.t.feed(pkt(0, com_stmt_execute(sid, [], caps=caps, flags=0)))
             else:
                 await a.cmd(com_stmt_execute(sid, [], caps=caps, flags=1))
-                off = rng.choice([0, 0, 1, 137, BATCH // 2]) if k > BATCH // 2 else 0
+                off = rng.choice([0, 0, 1, 137, BATCH // 2]) if k > BATCH // 2 and proto == "fetch" else 0
                 if off:
                     await a.cmd(b"\x1c" + struct.pack("<II", sid, off), n=80)
-                a.t.feed(pkt(0, b"\x1c" + struct.pack("<II", sid, 0xFFFFFFF)))
+                if proto == "fetchpipe":
+                    # the whole cursor asked for in small fetches that are all in the read buffer already: no read and no
+                    # drain ever suspends, so only the row sources' own yielding lets other connections run
+                    per = rng.choice([BATCH // 5, BATCH // 2 - 1, 1000, BATCH - 1])
+                    a.t.feed(b"".join(pkt(0, b"\x1c" + struct.pack("<II", sid, per)) for _ in range(n // per + 2)))
+                else:
+                    a.t.feed(pkt(0, b"\x1c" + struct.pack("<II", sid, 0xFFFFFFF)))
         for _ in range(400):
             await settle(10)
             if src.done and served:
@@ -753,9 +761,10 @@ async def fairness_cases(chk, rng, count):
             chk.fail("witness PING of another connection never answered", desc, dict(served=served, packets=[p[:8].hex() for p in okb]))
         elif got > k + 1 + BATCH:
             chk.fail("another connection's command answered only after more than batch rows of the stream", desc, dict(served_at=got, arrived=k, batch=BATCH))
-        lines.append("strm served code %d %d %d" % (n, off, k))
-        impl.append(str(got))
-        descs.append(desc)
+        if proto != "fetchpipe":
+            lines.append("strm served code %d %d %d" % (n, off, k))
+            impl.append(str(got))
+            descs.append(desc)
         await a.finish()
         await b.finish()
     out = drive(lines)
